@@ -1,8 +1,9 @@
 //! C04: rank/select answers match the bit-sequence definition in every implementation.
-//! M+S cells (Coq mechanism model): RankSelectSE512 (all four option combinations), RankSelectFewOne,
-//! RankSelectInterleaved256 (rank1/rank0/get).
-//! S-only cells: interleaved-256 (+ performance/bulk entry points), SE256, simple, few-zero, mixed (both
-//! dims), trivial, adaptive, multidim, BitVector::rank1/count_ones, bulk_*_simd.
+//! M+S cells (Coq mechanism model): RankSelectSE512 and RankSelectSE256 (all four option combinations),
+//! RankSelectInterleaved256 (rank/select/get, select cache on with several sample rates and off, the
+//! hardware/adaptive/optimized/bulk entry points), RankSelectSimple, RankSelectFewOne, RankSelectFewZero,
+//! BitVector (operation histories: push/pop/set/resize/ensure_set1/fast_ensure_set1/insert/clear/get/rank/count).
+//! S-only cells: mixed (both dims), trivial, adaptive, multidim, BitVector::rank1_bulk_simd, bulk_*_simd.
 use crate::util::*;
 use serde_json::{json, Value};
 use zipora::succinct::rank_select::*;
@@ -12,9 +13,8 @@ const HEADER: &str = r#"From Coq Require Import List NArith ZArith Bool.
 Import ListNotations.
 From ZV.Common Require Import Run.
 From ZV.C04 Require Import Spec Model ModelRun.
-Definition case_t : Type := list (bool * N) * bool * bool * N * list (N * N) * list Z.
-Definition ok (c : case_t) : bool :=
-  let '(runs, sp0, sp1, rate, qs, expect) := c in eqb_lz (run_queries2 (expand runs) sp0 sp1 rate qs) expect.
+Definition case_t : Type := c04case.
+Definition ok (c : case_t) : bool := case_ok c.
 "#;
 
 struct Ctx { sum: Summary, shards: CoqShards, budget: usize, all_queries: bool }
@@ -134,7 +134,7 @@ fn one_vector(cx: &mut Ctx, bits: &[bool], mode: u32, r: &mut Rng, to_coq: bool)
     cell!("few_one", true, RankSelectFewOne::from_bitvector(&make_bv(bits, mode)));
     cell!("few_zero", true, RankSelectFewZero::from_bitvector(&make_bv(bits, mode)));
     cell!("adaptive", true, AdaptiveRankSelect::new(make_bv(bits, mode)));
-    for c in ["interleaved256", "se256", "se256/nocache", "simple", "few_zero", "adaptive", "mixed/dim0", "mixed/dim1", "trivial", "bitvector", "interleaved256/perf", "bulk_simd", "multidim"] { cx.sum.cell_status(c, "S-only"); }
+    for c in ["adaptive", "mixed/dim0", "mixed/dim1", "trivial", "bitvector/rank1_bulk_simd", "bulk_simd", "multidim"] { cx.sum.cell_status(c, "S-only"); }
     // mixed: this vector as dim0 with a different dim1, and the other way round
     {
         let other: Vec<bool> = (0..(n / 2 + 3)).map(|i| i % 3 == 0).collect();
@@ -170,8 +170,17 @@ fn one_vector(cx: &mut Ctx, bits: &[bool], mode: u32, r: &mut Rng, to_coq: bool)
             if bv.count_ones() != o.ones.len() { bad.push(format!("count_ones {} want {}", bv.count_ones(), o.ones.len())); }
             for &p in &ps { if bv.rank1(p) != o.pre[p] && bad.len() < 3 { bad.push(format!("rank1({}) = {} want {}", p, bv.rank1(p), o.pre[p])); }
                             if bv.rank0(p) != p - o.pre[p] && bad.len() < 3 { bad.push(format!("rank0({})", p)); } }
+            bad
+        });
+        match res { Err(p) => cx.sum.fail(name, class, cj.clone(), &format!("panicked: {}", p)),
+                    Ok(bad) => if !bad.is_empty() { cx.sum.fail(name, class, cj.clone(), &bad.join("; ")); } }
+        let name = "bitvector/rank1_bulk_simd";
+        cx.sum.eval(name, &key, nontrivial);
+        let res = guarded(|| {
+            let bv = make_bv(bits, mode);
+            let mut bad = vec![];
             let bulk = bv.rank1_bulk_simd(&ps);
-            if bulk != ps.iter().map(|&p| o.pre[p]).collect::<Vec<_>>() { bad.push("rank1_bulk_simd".into()); }
+            if bulk != ps.iter().map(|&p| o.pre[p]).collect::<Vec<_>>() { bad.push("rank1_bulk_simd".to_string()); }
             bad
         });
         match res { Err(p) => cx.sum.fail(name, class, cj.clone(), &format!("panicked: {}", p)),
@@ -231,12 +240,23 @@ fn one_vector(cx: &mut Ctx, bits: &[bool], mode: u32, r: &mut Rng, to_coq: bool)
             let il = RankSelectInterleaved256::new(make_bv(bits, 0)).unwrap();
             let ila = RankSelectInterleaved256::with_options(make_bv(bits, 0), true, rate).unwrap();
             let ilb = RankSelectInterleaved256::with_options(make_bv(bits, 0), false, rate).unwrap();
+            let s2 = RankSelectSE256::with_options(make_bv(bits, 0), combo.0, combo.1).unwrap();
+            let sm = RankSelectSimple::new(make_bv(bits, 0)).unwrap();
+            let fz = RankSelectFewZero::from_bitvector(&make_bv(bits, 0)).unwrap();
             let mut qs: Vec<(u32, usize)> = vec![];
             let mut sample: Vec<usize> = vec![0, n, n / 2];
             for b in [63usize, 64, 65, 511, 512, 513, 1023, 1024, 1025] { if b <= n { sample.push(b); } }
             for _ in 0..6 { sample.push(Rng::new(n as u64 + qs.len() as u64).below(n as u64 + 1) as usize); }
             for b in [255usize, 256, 257] { if b <= n { sample.push(b); } }
             for &p in &sample { qs.push((0, p)); qs.push((1, p)); qs.push((5, p)); qs.push((8, p)); qs.push((9, p)); qs.push((10, p)); if p < n { qs.push((4, p)); qs.push((7, p)); } }
+            sample.sort(); sample.dedup();
+            for &p in &sample {
+                for op in [20u32, 21, 30, 31, 40, 41, 45] { qs.push((op, p)); }
+                if p < n { for op in [24u32, 34, 44] { qs.push((op, p)); } }
+            }
+            for op in [24u32, 34, 44] { qs.push((op, n)); }
+            for op in 50u32..=55 { qs.push((op, 0)); }
+            for &p in &[0usize, n / 3, n, n + 5] { for op in 56u32..=59 { qs.push((op, p)); } }
             qs.push((8, n + 1)); qs.push((9, n + 77)); qs.push((8, n + 300));
             let no = o.ones.len(); let nz = o.zeros.len();
             for k in [0usize, 1, no / 2, no.saturating_sub(1), no, no + 1] { qs.push((2, k)); qs.push((6, k)); }
@@ -248,12 +268,12 @@ fn one_vector(cx: &mut Ctx, bits: &[bool], mode: u32, r: &mut Rng, to_coq: bool)
             // the ones just before / at / after every 256-bit line boundary
             for b in [256usize, 512, 768, 1024, 2048] { if b <= n { let q = o.pre[b]; ks1.push(q.saturating_sub(1)); ks1.push(q); } }
             ks1.sort(); ks1.dedup();
-            for &k in &ks1 { qs.push((11, k)); qs.push((13, k)); }
+            for &k in &ks1 { qs.push((11, k)); qs.push((13, k)); qs.push((22, k)); qs.push((32, k)); qs.push((42, k)); }
             let mut ks0: Vec<usize> = vec![0, 1, nz / 2, nz.saturating_sub(1), nz, nz + 1];
             for _ in 0..3 { ks0.push(Rng::new((n + nz + ks0.len()) as u64).below(nz as u64 + 1) as usize); }
             for b in [256usize, 512, 768, 1024, 2048] { if b <= n { let q = b - o.pre[b]; ks0.push(q.saturating_sub(1)); ks0.push(q); } }
             ks0.sort(); ks0.dedup();
-            for &k in &ks0 { qs.push((12, k)); }
+            for &k in &ks0 { qs.push((12, k)); qs.push((23, k)); qs.push((33, k)); qs.push((43, k)); qs.push((46, k)); }
             for k in [0usize, no / 3, no.saturating_sub(1), no] { qs.push((14, k)); qs.push((15, k)); qs.push((16, k)); qs.push((17, k)); qs.push((18, k)); }
             qs.push((4, n));
             let ans: Vec<i128> = qs.iter().map(|&(op, a)| match op {
@@ -269,14 +289,163 @@ fn one_vector(cx: &mut Ctx, bits: &[bool], mode: u32, r: &mut Rng, to_coq: bool)
                 16 => ilb.select1_optimized(a).map(|x| x as i128).unwrap_or(-1),
                 17 => ila.select1_bulk(&[a]).map(|v| v[0] as i128).unwrap_or(-1),
                 18 => ilb.select1_bulk_optimized(&[0, a]).map(|v| v[1] as i128).unwrap_or(-1),
+                20 => s2.rank1(a) as i128, 21 => s2.rank0(a) as i128,
+                22 => s2.select1(a).map(|x| x as i128).unwrap_or(-1), 23 => s2.select0(a).map(|x| x as i128).unwrap_or(-1),
+                24 => s2.get(a).map(|b| b as i128).unwrap_or(-1),
+                30 => sm.rank1(a) as i128, 31 => sm.rank0(a) as i128,
+                32 => sm.select1(a).map(|x| x as i128).unwrap_or(-1), 33 => sm.select0(a).map(|x| x as i128).unwrap_or(-1),
+                34 => sm.get(a).map(|b| b as i128).unwrap_or(-1),
+                40 => fz.rank1(a) as i128, 41 => fz.rank0(a) as i128,
+                42 => fz.select1(a).map(|x| x as i128).unwrap_or(-1), 43 => fz.select0(a).map(|x| x as i128).unwrap_or(-1),
+                44 => fz.get(a).map(|b| b as i128).unwrap_or(-1),
+                45 => fw.rank0(a) as i128, 46 => fw.select0(a).map(|x| x as i128).unwrap_or(-1),
+                50 => rs.count_ones() as i128, 51 => s2.count_ones() as i128, 52 => sm.count_ones() as i128,
+                53 => fz.count_ones() as i128, 54 => fw.count_ones() as i128, 55 => il.count_ones() as i128,
+                56 => il.rank1_hardware_accelerated(a) as i128, 57 => il.rank1_adaptive(a) as i128,
+                58 => il.rank1_optimized(a) as i128, 59 => il.rank1_bulk(&[a])[0] as i128,
                 _ => fw.get(a).map(|b| b as i128).unwrap_or(-1) }).collect();
             (qs, ans)
         });
         if let Ok((qs, ans)) = res {
             let runs_coq: Vec<String> = runs.iter().map(|(b, k)| format!("({}, {}%N)", coq_bool(*b), k)).collect();
             let qs_coq: Vec<String> = qs.iter().map(|(op, a)| format!("({}%N, {}%N)", op, a)).collect();
-            let term = format!("([{}], {}, {}, {}%N, [{}], {})", runs_coq.join("; "), coq_bool(combo.0), coq_bool(combo.1), rate, qs_coq.join("; "), coq_z_list(ans.iter().cloned()));
+            let term = format!("RS [{}] {} {} {}%N [{}] {}", runs_coq.join("; "), coq_bool(combo.0), coq_bool(combo.1), rate, qs_coq.join("; "), coq_z_list(ans.iter().cloned()));
             cx.shards.push(term, json!({"runs": cj["runs"], "mode": 0, "speed_select": [combo.0, combo.1], "il_sample_rate": rate}));
+        }
+    }
+}
+
+
+// ---------------------------------------------------------------------------------------------
+// BitVector operation histories: the vector's own observations against a Vec<bool>, the structures built from
+// the resulting vector (they popcount whole storage words, so bits past the end must be zero), and the Coq
+// state-machine model (observations, final blocks(), final len()).
+// op codes: 0 push(b) 1 pop 2 set(i,b) 3 resize(n,b) 4 ensure_set1(i) 5 fast_ensure_set1(i) 6 insert(i,b) 7 clear
+//           8 get(i) 9 rank1(p) 10 rank0(p) 11 count_ones 12 len
+type BvOp = (u32, usize, bool);
+
+fn bv_apply(bv: &mut BitVector, op: BvOp) -> i128 {
+    let (c, a, b) = op;
+    fn r(x: zipora::Result<()>) -> i128 { if x.is_ok() { 0 } else { -1 } }
+    match c {
+        0 => r(bv.push(b)),
+        1 => bv.pop().map(|x| x as i128).unwrap_or(-1),
+        2 => r(bv.set(a, b)),
+        3 => r(bv.resize(a, b)),
+        4 => r(bv.ensure_set1(a)),
+        5 => r(bv.fast_ensure_set1(a)),
+        6 => r(bv.insert(a, b)),
+        7 => { bv.clear(); 0 }
+        8 => bv.get(a).map(|x| x as i128).unwrap_or(-1),
+        9 => bv.rank1(a) as i128,
+        10 => bv.rank0(a) as i128,
+        11 => bv.count_ones() as i128,
+        _ => bv.len() as i128,
+    }
+}
+
+fn ref_apply(l: &mut Vec<bool>, op: BvOp) -> i128 {
+    let (c, a, b) = op;
+    match c {
+        0 => { l.push(b); 0 }
+        1 => l.pop().map(|x| x as i128).unwrap_or(-1),
+        2 => if a < l.len() { l[a] = b; 0 } else { -1 },
+        3 => { l.resize(a, b); 0 }
+        4 | 5 => { if a >= l.len() { l.resize(a + 1, false); } l[a] = true; 0 }
+        6 => if a <= l.len() { l.insert(a, b); 0 } else { -1 },
+        7 => { l.clear(); 0 }
+        8 => l.get(a).map(|x| *x as i128).unwrap_or(-1),
+        9 => l.iter().take(a).filter(|x| **x).count() as i128,
+        10 => l.iter().take(a).filter(|x| !**x).count() as i128,
+        11 => l.iter().filter(|x| **x).count() as i128,
+        _ => l.len() as i128,
+    }
+}
+
+fn bv_gen_ops(r: &mut Rng) -> (bool, usize, bool, Vec<BvOp>) {
+    let use_init = r.chance(1, 2);
+    let init_size = *r.pick(&[0usize, 1, 63, 64, 65, 127, 128, 129, 255, 256, 257, 511, 512, 513, 1000]);
+    let init_val = r.chance(1, 2);
+    let mut len = if use_init { init_size } else { 0 };
+    let mut ops: Vec<BvOp> = vec![];
+    let nops = 15 + r.below(70) as usize;
+    while ops.len() < nops {
+        let near = |r: &mut Rng, len: usize| -> usize {
+            match r.below(8) { 0 => 0, 1 => len, 2 => len + 1, 3 => len.saturating_sub(1), 4 => (len / 64) * 64, 5 => (len / 64) * 64 + 64,
+                               6 => len + *r.pick(&[2usize, 63, 64, 65, 200]), _ => r.below(len as u64 + 1) as usize } };
+        match r.below(100) {
+            0..=27 => { let burst = if r.chance(1, 4) { 1 + r.below(70) as usize } else { 1 }; let dense = r.chance(1, 2);
+                        for _ in 0..burst { ops.push((0, 0, if dense { !r.chance(1, 8) } else { r.chance(1, 2) })); len += 1; } }
+            28..=35 => { let k = if r.chance(1, 5) { 1 + r.below(70) as usize } else { 1 }; for _ in 0..k { ops.push((1, 0, false)); len = len.saturating_sub(1); } }
+            36..=43 => { let i = near(r, len); ops.push((2, i, r.chance(1, 2))); }
+            44..=50 => { let n = { let x = near(r, len); if r.chance(1, 6) { *r.pick(&[0usize, 63, 64, 65, 128, 700]) } else { x } }; ops.push((3, n, r.chance(1, 2))); len = n; }
+            51..=57 => { let i = near(r, len); ops.push((4, i, false)); if i >= len { len = i + 1; } }
+            58..=62 => { let i = near(r, len); ops.push((5, i, false)); if i >= len { len = i + 1; } }
+            63..=64 => { if len < 300 { let i = near(r, len); ops.push((6, i, r.chance(1, 2))); if i <= len { len += 1; } } }
+            65 => { ops.push((7, 0, false)); len = 0; }
+            66..=73 => { let i = near(r, len); ops.push((8, i, false)); }
+            74..=86 => { let i = near(r, len); ops.push((9, i, false)); }
+            87..=91 => { let i = near(r, len); ops.push((10, i, false)); }
+            92..=96 => ops.push((11, 0, false)),
+            _ => ops.push((12, 0, false)),
+        }
+        if len > 2600 { ops.push((3, 100, false)); len = 100; }
+    }
+    ops.push((11, 0, false)); ops.push((12, 0, false)); ops.push((9, len, false));
+    (use_init, init_size, init_val, ops)
+}
+
+fn bv_history(cx: &mut Ctx, use_init: bool, init_size: usize, init_val: bool, ops: &[BvOp], to_coq: bool) {
+    let name = "bitvector";
+    let cj = json!({"cell": "bitvector/history", "init": {"use": use_init, "size": init_size, "val": init_val},
+                    "ops": ops.iter().map(|(c, a, b)| json!([c, a, *b as u8])).collect::<Vec<_>>()});
+    let key = format!("{:?} {} {} {:?}", use_init, init_size, init_val, ops);
+    let crosses = ops.iter().filter(|o| o.0 <= 7).count() >= 5;
+    cx.sum.eval(name, &key, crosses);
+    let res = guarded(|| {
+        let mut bad: Vec<String> = vec![];
+        let mut bv = if use_init { BitVector::with_size(init_size, init_val).unwrap() } else { BitVector::new() };
+        let mut l: Vec<bool> = if use_init { vec![init_val; init_size] } else { vec![] };
+        let mut obs: Vec<i128> = vec![];
+        for (k, &op) in ops.iter().enumerate() {
+            let got = bv_apply(&mut bv, op);
+            let want = ref_apply(&mut l, op);
+            if got != want && bad.len() < 3 { bad.push(format!("op #{} {:?}: got {} want {}", k, op, got, want)); }
+            obs.push(got);
+        }
+        // the final vector, bit by bit, and its own rank at every position
+        if bv.len() != l.len() { bad.push(format!("len {} want {}", bv.len(), l.len())); }
+        let o = Oracle::new(&l);
+        if bv.count_ones() != o.ones.len() { bad.push(format!("count_ones {} want {}", bv.count_ones(), o.ones.len())); }
+        for p in 0..=l.len() {
+            if p < l.len() && bv.get(p) != Some(l[p]) && bad.len() < 4 { bad.push(format!("get({})", p)); }
+            if bv.rank1(p) != o.pre[p] && bad.len() < 4 { bad.push(format!("rank1({}) = {} want {}", p, bv.rank1(p), o.pre[p])); }
+        }
+        // structures built from this vector count whole storage words: stale bits past the end would show here
+        let ps: Vec<usize> = (0..=l.len()).collect();
+        let blocks: Vec<u64> = bv.blocks().to_vec();
+        let flen = bv.len();
+        if bad.is_empty() {
+            for (nm, b) in [("interleaved256", RankSelectInterleaved256::new(bv.clone()).map(|x| check_ops(&x, &o, &ps, true))),
+                            ("se256", RankSelectSE256::new(bv.clone()).map(|x| check_ops(&x, &o, &ps, true))),
+                            ("se512", RankSelectSE512::new(bv.clone()).map(|x| check_ops(&x, &o, &ps, true))),
+                            ("simple", RankSelectSimple::new(bv.clone()).map(|x| check_ops(&x, &o, &ps, true)))] {
+                match b { Ok(v) => for e in v.into_iter().take(2) { bad.push(format!("{} built from the vector: {}", nm, e)); },
+                          Err(e) => bad.push(format!("{} construction refused: {:?}", nm, e)) }
+            }
+        }
+        (bad, obs, blocks, flen)
+    });
+    match res {
+        Err(p) => cx.sum.fail(name, None, cj.clone(), &format!("panicked: {}", p)),
+        Ok((bad, obs, blocks, flen)) => {
+            if !bad.is_empty() { cx.sum.fail(name, None, cj.clone(), &bad.join("; ")); }
+            if to_coq && cx.shards.len() < cx.budget {
+                let ops_coq: Vec<String> = ops.iter().map(|(c, a, b)| format!("({}%N, {}%N, {}%N)", c, a, *b as u8)).collect();
+                let term = format!("BV {}%N {} {} [{}] {} {} {}%N", init_size, coq_bool(init_val), coq_bool(use_init), ops_coq.join("; "),
+                                   coq_z_list(obs.iter().cloned()), coq_n_list(blocks.iter().map(|&w| w as u128)), flen);
+                cx.shards.push(term, cj.clone());
+            }
         }
     }
 }
@@ -301,6 +470,12 @@ fn gen_bits(r: &mut Rng, thorough: bool) -> Vec<bool> {
 }
 
 fn run_one(cx: &mut Ctx, c: &Value) {
+    if c.get("cell").and_then(|x| x.as_str()) == Some("bitvector/history") {
+        let ops: Vec<BvOp> = c["ops"].as_array().map(|a| a.iter().map(|o| (o[0].as_u64().unwrap_or(12) as u32, o[1].as_u64().unwrap_or(0) as usize, o[2].as_u64().unwrap_or(0) == 1)).collect()).unwrap_or_default();
+        let init = &c["init"];
+        bv_history(cx, init["use"].as_bool().unwrap_or(false), init["size"].as_u64().unwrap_or(0) as usize, init["val"].as_bool().unwrap_or(false), &ops, true);
+        return;
+    }
     let mut bits = vec![];
     for rn in c["runs"].as_array().unwrap() { for _ in 0..rn[1].as_u64().unwrap() { bits.push(rn[0].as_u64().unwrap() == 1); } }
     let mode = c["mode"].as_u64().unwrap_or(0) as u32;
@@ -310,9 +485,9 @@ fn run_one(cx: &mut Ctx, c: &Value) {
 
 pub fn run(args: &Args) {
     let mut cx = Ctx {
-        sum: Summary::new("C04", "all bit strings of length <= 10 (quick) / 12 (thorough); generated vectors at lengths around 64/256/512/2048/65536 boundaries with densities all-0, all-1, single bit at a boundary, 1/1000, 1/2, 7/8, 999/1000, long runs; bit vectors built by push, by over-push + resize-down, by over-push + pop, by with_size(false) + set, by with_size(true) + clear, by growing with resize(n, true); four vectors with runs of 8200..20032 ones at 8192-bit boundaries; every position for rank0/rank1/get and every k (plus ones, ones+1) for select0/select1 when len <= 1400, boundary + random sample otherwise; non-trivial = length >= 65 with both bit values present"),
+        sum: Summary::new("C04", "all bit strings of length <= 10 (quick) / 12 (thorough); generated vectors at lengths around 64/256/512/2048/65536 boundaries with densities all-0, all-1, single bit at a boundary, 1/1000, 1/2, 7/8, 999/1000, long runs; bit vectors built by push, by over-push + resize-down, by over-push + pop, by with_size(false) + set, by with_size(true) + clear, by growing with resize(n, true); four vectors with runs of 8200..20032 ones at 8192-bit boundaries; every position for rank0/rank1/get and every k (plus ones, ones+1) for select0/select1 when len <= 1400, boundary + random sample otherwise; non-trivial = length >= 65 with both bit values present; BitVector operation histories (15..85 steps from new or with_size(n, v) at block-boundary sizes: push bursts, pop bursts, set, resize, ensure_set1, fast_ensure_set1, insert, clear, get, rank1, rank0, count_ones, len at and around len and the 64-bit block edges) compared step by step with a Vec<bool>, then every position of the final vector and the structures built from it; non-trivial history = at least 5 mutations"),
         shards: CoqShards::new(HEADER, 40),
-        budget: if args.thorough { 4000 } else { 480 },
+        budget: if args.thorough { 6000 } else { 600 },
         all_queries: args.thorough,
     };
     let mut rng = Rng::new(args.seed);
@@ -360,6 +535,14 @@ pub fn run(args: &Args) {
         let mut r2 = rng.clone();
         one_vector(&mut cx, &bits, mode, &mut r2, true);
         rng.next();
+    }
+    // BitVector operation histories
+    let nhist = if args.thorough { 4000 } else { 400 };
+    for i in 0..nhist {
+        let (u, n, v, ops) = bv_gen_ops(&mut rng);
+        if i < 2 { cx.sum.sample(json!({"bitvector_history": {"with_size": u, "size": n, "val": v, "ops": ops.len(), "first_ops": ops.iter().take(8).map(|(c, a, b)| json!([c, a, *b as u8])).collect::<Vec<_>>()}})); }
+        cx.sum.dist("bitvector_histories");
+        bv_history(&mut cx, u, n, v, &ops, i % 2 == 0 || args.thorough);
     }
     cx.sum.dist_max("coq_cases", cx.shards.len() as u64);
     let sh = cx.shards.write(&args.out);
